@@ -437,7 +437,7 @@ def _data_parse_csv(args, unused_options):
             continue
         if value_type(arg) != 'string':
             return None
-        lines.extend(arg.splitlines(keepends=True))
+        lines.extend(_R_DATA_PARSE_CSV_LINES.split(arg))
 
     # Parse the CSV
     data = list(csv.DictReader(lines, skipinitialspace=True))
@@ -445,6 +445,10 @@ def _data_parse_csv(args, unused_options):
     # Validate the data (as CSV)
     validate_data(data, True)
     return data
+
+
+# CSV records end at CR, LF or CRLF only (str.splitlines also splits at VT, FF, FS, GS, RS, NEL, LS and PS)
+_R_DATA_PARSE_CSV_LINES = re.compile(r'(?<=\n)|(?<=\r)(?!\n)')
 
 
 # $function: dataSort
